@@ -244,6 +244,10 @@ func monitor(c hxlib.Case, outs []string) (vs []hxlib.Violation) {
 		}
 		of := strings.Fields(o)
 		switch f[0] {
+		case "cfgops":
+			if sig, what := monitorCfgOps(l, o); sig != "" {
+				add(i, sig, what)
+			}
 		case "cfgpush":
 			if sig, what := monitorCfg(l, o); sig != "" {
 				add(i, sig, what)
@@ -407,9 +411,7 @@ func monitor(c hxlib.Case, outs []string) (vs []hxlib.Violation) {
 					}
 					pos[cl.phase] = idx + 1
 					res := r
-					if strings.HasPrefix(cl.beh, "s") {
-						res.n, _ = strconv.ParseInt(cl.beh[1:], 10, 64)
-					}
+					res = applyBeh(res, cl.beh)
 					cur[cl.phase] = res.String()
 				}
 				if cl.phase == "pg" {
@@ -484,6 +486,12 @@ func monitor(c hxlib.Case, outs []string) (vs []hxlib.Violation) {
 				}
 			}
 			if f[0] == "get" {
+				// the get-hook clause read from what is stored (raw line before the get), independent of the calls observed
+				if stored, ok := rawAt(i-1, key); ok {
+					if want := expectGet(hooks, iface, key, stored); want != o {
+						add(i, "C14:get:hooks-or-result", fmt.Sprintf("stored %s: the hook clause requires %q", stored, want))
+					}
+				}
 				// a successful get returns what the post-get chain produced
 				if success && len(of) >= 2 {
 					if want, ok := cur["og"]; ok && want != of[1] {
@@ -557,6 +565,68 @@ func monitor(c hxlib.Case, outs []string) (vs []hxlib.Violation) {
 		}
 	}
 	return vs
+}
+
+// applyBeh: what a record-phase hook with behaviour beh hands on.
+func applyBeh(r mRec, beh string) mRec {
+	switch {
+	case strings.HasPrefix(beh, "s"):
+		r.n, _ = strconv.ParseInt(beh[1:], 10, 64)
+	case beh == "x":
+		fl := []byte(r.flags)
+		fl[2] = 'd'
+		r.flags = string(fl)
+	}
+	return r
+}
+
+// expectGet: Interface.Get as the property states it. Pre-get hooks are called for exactly the registered hooks that
+// declare the phase and match the key, in registration order, until one vetoes; the stored record (whatever its state:
+// also expired or marked deleted) goes through the post-get hooks that declare the phase and match the record current
+// at their turn (replace hands the new record on, veto ends the get with the hook's error); what the chain produced is
+// returned if it is valid and the interface may see it.
+func expectGet(hooks []*mHook, iface, key, stored string) string {
+	var calls []string
+	out := func(res string) string {
+		if len(calls) == 0 {
+			return res
+		}
+		return res + " " + strings.Join(calls, " ")
+	}
+	for _, h := range hooks {
+		if !h.active || h.pg == "-" || !h.q.matchesKey(key) {
+			continue
+		}
+		calls = append(calls, fmt.Sprintf("h%s.pg(%s)>%s", h.hid, key, h.pg))
+		if strings.HasPrefix(h.pg, "v") {
+			return out("err veto" + h.pg[1:])
+		}
+	}
+	if stored == "none" {
+		return out("err notfound")
+	}
+	cur := parseRecStr(stored)
+	if !cur.ok {
+		return "?"
+	}
+	for _, h := range hooks {
+		if !h.active || h.og == "-" || !h.q.matches(cur) {
+			continue
+		}
+		calls = append(calls, fmt.Sprintf("h%s.og(%s)>%s", h.hid, cur, h.og))
+		if strings.HasPrefix(h.og, "v") {
+			return out("err veto" + h.og[1:])
+		}
+		cur = applyBeh(cur, h.og)
+	}
+	if cur.flags[2] == 'd' || cur.flags[3] == 'p' {
+		return out("err notfound")
+	}
+	base, _, _ := strings.Cut(iface, "+")
+	if (!strings.Contains(base, "L") && cur.cj()) || (!strings.Contains(base, "I") && cur.secret()) {
+		return out("err denied")
+	}
+	return out("ok " + cur.String())
 }
 
 func hookIndex(hooks []*mHook, hid string) int {
